@@ -88,11 +88,44 @@ class ControlledPool:
     def starmap(self, fn, items, chunksize=None):
         return self.map(lambda a: fn(*a), items)
 
+    def apply_async(self, fn, args=(), kwds=None, callback=None, error_callback=None):
+        pool = self
+
+        class H:
+            done = False
+            value = None
+
+            def _run(h):
+                if not h.done:
+                    h.value = fn(*args, **(kwds or {}))
+                    h.done = True
+                    if callback is not None:
+                        callback(h.value)
+
+            def get(h, timeout=None):
+                if not h.done:
+                    pool._run_pending()
+                return h.value
+
+            def wait(h, timeout=None):
+                h.get()
+
+            def ready(h):
+                return h.done
+        h = H()
+        self.__dict__.setdefault("_pending", []).append(h)
+        return h
+
+    def _run_pending(self):
+        pend = [h for h in self.__dict__.get("_pending", []) if not h.done]
+        for i in self._order(len(pend)):
+            pend[i]._run()
+
     def close(self):
         pass
 
     def join(self):
-        pass
+        self._run_pending()
 
     def terminate(self):
         pass
@@ -203,6 +236,9 @@ def case_builds(ctx, mask_names, n_layers, alts, program, schedules, gs_ndarray=
     seen_orders = set()
     for pi, p in enumerate(paths):
         if p.exc is not None:
+            if harness._encoding_limit(p.exc):
+                ctx.inconclusive.append("%s/path%d: not encodable (%s: %s)" % (ctx.case, pi, type(p.exc).__name__, str(p.exc)[:200]))
+                continue
             ctx.prove("path%d raises %s" % (pi, type(p.exc).__name__), p.pc, z3.BoolVal(False),
                       replay=lambda m: harness.pristine_call(replay_builds, mask_names, n_layers, list(alts), list(program), [], gs_ndarray), axioms=False)
             continue
